@@ -1,6 +1,78 @@
 package main
 
-import "strings"
+import (
+	"go/ast"
+	"sort"
+	"strings"
+)
+
+// reachTags[f] = the numeric properties (C01..C19 except the pure layout/dispatch ones) anchored in some
+// function that reaches f through static calls. Computed once per load from the typed syntax.
+var reachTags = map[string][]string{}
+
+func (p *Prog) computeReachTags() {
+	for k := range reachTags {
+		delete(reachTags, k)
+	}
+	callees := map[string]map[string]bool{}
+	for name, fd := range p.Funcs {
+		if fd.Body == nil {
+			continue
+		}
+		set := map[string]bool{}
+		ast.Inspect(fd.Body, func(n ast.Node) bool {
+			if call, ok := n.(*ast.CallExpr); ok {
+				if cn := p.calleeName(call); cn != "" && p.Funcs[cn] != nil && cn != name {
+					set[cn] = true
+				}
+			}
+			return true
+		})
+		callees[name] = set
+	}
+	propagates := map[string]bool{"C01": true, "C02": true, "C03": true, "C05": true, "C06": true, "C07": true, "C08": true, "C09": true,
+		"C10": true, "C11": true, "C13": true, "C14": true, "C16": true, "C17": true, "C18": true}
+	acc := map[string]map[string]bool{}
+	for name := range p.Funcs {
+		base := funcPropsBase(name)
+		if len(base) == 1 && base[0] == "C20" {
+			continue
+		}
+		if strings.HasPrefix(name, "uint") || strings.HasPrefix(name, "decomposed192.") || strings.HasPrefix(name, "RoundingMode.") {
+			continue // kernels do not originate tags, they receive them
+		}
+		// depth-first from this anchor
+		seen := map[string]bool{name: true}
+		stack := []string{name}
+		for len(stack) > 0 {
+			cur := stack[len(stack)-1]
+			stack = stack[:len(stack)-1]
+			for c := range callees[cur] {
+				if seen[c] {
+					continue
+				}
+				seen[c] = true
+				stack = append(stack, c)
+				if acc[c] == nil {
+					acc[c] = map[string]bool{}
+				}
+				for _, b := range base {
+					if propagates[b] {
+						acc[c][b] = true
+					}
+				}
+			}
+		}
+	}
+	for name, set := range acc {
+		var l []string
+		for k := range set {
+			l = append(l, k)
+		}
+		sort.Strings(l)
+		reachTags[name] = l
+	}
+}
 
 // funcProps maps a function of the repository to the properties whose
 // behaviour it implements (anchors of properties.jsonl). Generic per-construct
@@ -8,6 +80,19 @@ import "strings"
 // properties that the broken construct actually serves.
 func funcProps(name string) []string {
 	ps := funcPropsBase(name)
+	// a function also serves every numeric property whose operations reach it through the call graph
+	// (reduce128 is behind Parse and UnmarshalJSON, QuoWithMode behind FromRat and Pow(x, -1), ...)
+	if extra := reachTags[name]; len(extra) > 0 {
+		ps = append([]string{}, ps...)
+		if len(ps) == 1 && ps[0] == "C20" {
+			ps = ps[:0]
+		}
+		for _, e := range extra {
+			if !hasProp(ps, e) {
+				ps = append(ps, e)
+			}
+		}
+	}
 	// C19 (results depend on values, not encodings) is anchored in every function that aligns,
 	// scales or inspects a coefficient/exponent pair: a defect there shows up for some cohort
 	// members and not for others.
